@@ -28,7 +28,7 @@ CLAUSES = {
     "C04": {"C_CreditDomain", "C_CreditBusyZero", "C_CreditUnit", "C_CreditSupport", "C_Rows", "C_RecordFrac",
             "F_RecordFrac", "R_Frac"},
     "C02": {"P_UsedP", "P_UsedPOk", "C_CreditIsP"},
-    "C17": {"P_StepsLeft", "P_NotTooMany", "C_StepCounter", "C_NoOverrun", "F_Done", "F_StepsExact", "F_Record",
+    "C17": {"P_StepsLeft", "P_NotTooMany", "C_StepCounter", "C_NoOverrun", "F_Done", "F_StepsExact", "F_Count", "F_Record",
             "F_Unchanged", "P_Counters", "R_Continues"},
     "C07": {"P_StreamsDistinct", "P_StreamsFresh", "P_StreamFunction", "P_StreamSeed", "C_NoForeign"},
     "C06": {"P_Reissue", "P_ReissueRecorded", "P_LockedList", "C_LockedList", "R_Restore", "R_Frac", "R_Weights",
@@ -43,6 +43,7 @@ RAISES = {
     "C06": {"set_rgen", "load_paths", "load_path", "load_paths_from_disk", "setup_config", "pick_lock", "__init__"},
     "C07": {"set_rgen", "spawn_rng"},
     "C02": {"inf_retis", "quick_prob", "permanent_prob", "find_blocks", "prob", "fast_glynn_perm"},
+    "C08": None, "C14": None,
 }
 
 ALL_INVARIANTS = ["MutexEns", "MutexPath", "LocksExact", "JobHoldsItsPaths", "PickedNonZero", "EngineExclusive",
@@ -147,7 +148,7 @@ class SystemCheck:
         self.work = common.tmpdir(f"{pid.lower()}-")
         _CTX["work"] = self.work
         self.tier = tier
-        self.clauses = set(CLAUSES[pid])
+        self.clauses = set(CLAUSES.get(pid, ()))
         self.extra_clause_props = {}
         self.stats = {"behaviours": 0, "diverged": 0, "random_runs": 0, "events": 0, "errors": 0}
 
